@@ -2,7 +2,8 @@
 """Regenerate /verif/MANIFEST.json from checks.json (single source of truth)."""
 import json, os
 V = os.path.dirname(os.path.dirname(os.path.abspath(__file__)))
-checks = json.load(open(os.path.join(V, "checks.json")))
+import glob
+checks = {os.path.basename(f)[:-5]: json.load(open(f)) for f in sorted(glob.glob(os.path.join(V, "checks.d", "C*.json")))}
 props = [json.loads(l) for l in open(os.path.join(V, "properties.jsonl"))]
 na = json.load(open(os.path.join(V, "not_applicable.json"))) if os.path.exists(os.path.join(V, "not_applicable.json")) else {}
 m = {
